@@ -97,7 +97,9 @@ class Model:
             except EXISTS_CAUGHT:
                 return 0
             return 1
-        if k == "python":
+        if k in ("python", "pyform"):
+            # (the python forms only wrap the probe call: lambdas that are
+            # called at once, a one-element comprehension, a tuple index)
             return self.ev(e["e"])
         if k == "string":
             return self.string_parts(e["parts"])
